@@ -63,7 +63,7 @@ const char* const probe_names[PR__COUNT] = {
 // vthreads
 // ---------------------------------------------------------------------------------
 enum VState { VS_UNUSED = 0, VS_RUNNABLE, VS_BLOCKED, VS_DONE };
-enum BlockKind { BK_NONE = 0, BK_LOCK, BK_JOIN, BK_BARRIER };
+enum BlockKind { BK_NONE = 0, BK_LOCK, BK_JOIN, BK_BARRIER, BK_WAIT };
 #define MAX_VT 64
 
 struct VThread {
@@ -75,6 +75,7 @@ struct VThread {
   int       block_kind;
   void*     block_on;
   bool      yielded;
+  bool      wait_timed_out;
   int       passthrough;   // nesting depth
   int64_t   priority;
   uint64_t  steps, call_steps;
@@ -311,8 +312,14 @@ static void deadlock_report() {
 }
 
 // current thread must stop running (blocked or done): pass the baton on
+static bool wake_waiters_timed_out() {     // nothing else can run: harness-level waits (sched_wait) give up instead of deadlocking
+  bool any = false;
+  for (int i = 0; i < g_nvt; i++) { VThread& o = g_vt[i]; if (o.state == VS_BLOCKED && o.block_kind == BK_WAIT) { o.state = VS_RUNNABLE; o.block_kind = BK_NONE; o.block_on = nullptr; o.wait_timed_out = true; any = true; } }
+  return any;
+}
 static void switch_away(VThread* self) {
   VThread* n = pick_next(self, true);
+  if (n == nullptr && wake_waiters_timed_out()) n = pick_next(self, false);
   if (n == nullptr) deadlock_report();
   hand_over(self, n);
 }
@@ -544,6 +551,7 @@ static void* vthread_start(void* p) {
     if (o.state == VS_BLOCKED && o.block_kind == BK_JOIN && o.block_on == (void*)t) { o.state = VS_RUNNABLE; o.block_kind = BK_NONE; o.block_on = nullptr; }
   }
   VThread* n = pick_next(t, true);
+  if (n == nullptr && wake_waiters_timed_out()) n = pick_next(t, true);
   if (n == nullptr) {
     bool all_done = true; for (int i = 0; i < g_nvt; i++) if (g_vt[i].state != VS_DONE) all_done = false;
     if (all_done) sim_infra_error("all vthreads ended without finishing the run");
@@ -591,6 +599,18 @@ void sched_join(int i) {
     t->state = VS_BLOCKED; t->block_kind = BK_JOIN; t->block_on = (void*)&g_vt[i];
     switch_away(t);
   }
+}
+
+// harness-level condition wait: block until another vthread calls sched_notify(key); false = gave up (nothing else could run)
+bool sched_wait(uint64_t key) {
+  VThread* t = tl_cur;
+  t->wait_timed_out = false;
+  t->state = VS_BLOCKED; t->block_kind = BK_WAIT; t->block_on = (void*)(uintptr_t)(key + 1);
+  switch_away(t);
+  return !t->wait_timed_out;
+}
+void sched_notify(uint64_t key) {
+  for (int i = 0; i < g_nvt; i++) { VThread& o = g_vt[i]; if (o.state == VS_BLOCKED && o.block_kind == BK_WAIT && o.block_on == (void*)(uintptr_t)(key + 1)) { o.state = VS_RUNNABLE; o.block_kind = BK_NONE; o.block_on = nullptr; } }
 }
 
 void sched_barrier(int id, int parties) {
